@@ -7,7 +7,7 @@
    Spec/Lang.v (both directions); the backtracking recogniser of Spec/Grammar.v is still evaluated against the
    implementation's verdicts on every run. *)
 From Coq Require Import List NArith Bool.
-Require P.Proofs.LangFinal.
+Require P.Proofs.LangFinal P.Proofs.GrammarOracleFinal P.Spec.Grammar.
 Require Import P.Spec.Lang P.Model.Base P.Model.Reader.
 Strategy opaque [P.Generated.Trees.tree_symbol P.Generated.Trees.tree_organic P.Generated.Trees.tree_configuration
   P.Generated.Trees.tree_charge P.Generated.Trees.tree_bond P.Generated.Trees.tree_rnum P.Generated.Trees.tree_hcount
@@ -47,9 +47,14 @@ Proof. exact P.Proofs.LangFinal.C04_complete. Qed.
 Theorem C04_accepts_exactly_the_documented_productions : forall s, fst (rd s) = VOk <-> Smiles s.
 Proof. exact P.Proofs.LangFinal.C04_accepts_exactly_the_documented_productions. Qed.
 
+(* the executable recogniser that the check evaluates on the implementation's verdicts decides exactly this language *)
+Theorem C04_executable_recogniser_decides_the_language : forall s, P.Spec.Grammar.accepts_spec s = true <-> Lang s.
+Proof. exact P.Proofs.GrammarOracleFinal.accepts_spec_correct. Qed.
+
 Print Assumptions C04_tokens_are_the_documented_families.
 Print Assumptions C04_every_written_history_is_accepted.
 Print Assumptions C04_reader_total.
 Print Assumptions C04_accepted_strings_are_sentences.
 Print Assumptions C04_sentences_are_accepted.
 Print Assumptions C04_accepts_exactly_the_documented_productions.
+Print Assumptions C04_executable_recogniser_decides_the_language.
